@@ -525,6 +525,17 @@ def run(ctx, col: Collector):
                         col.check(not extra, 'C08-partial', cons, f'{c.func.id}() only sees digits (and a decimal point)',
                                   f'the rule at {g.file}:{g.line} can hand {c.func.id}() a token containing {sorted(extra)}; the action picks int() unless the text '
                                   f'contains a dot, so e.g. an exponent form reaches int() and raises ValueError inside the parse action', node=_N(g), file=g.file)
+                        # int() of a digit string of unbounded length: CPython (3.11+) refuses more than sys.int_max_str_digits (4300) digits with ValueError
+                        if c.func.id == 'int':
+                            cons2 = f'conversion-length:{a.module.split(".")[-1]}:int@{g.var or g.line}'
+                            if not any(o.construct == cons2 for o in col.obs):
+                                ln = gt.lengths(g, cap=4300)
+                                if ln is None:
+                                    col.bad('C08-partial', cons2, f'the rule at {g.file}:{g.line} hands int() a digit string of unbounded length: beyond 4300 digits CPython raises '
+                                            f'ValueError ("Exceeds the limit for integer string conversion") inside the parse action, which pyparsing does not turn into a '
+                                            f'parse error', node=_N(g), file=g.file)
+                                else:
+                                    col.ok('C08-partial', cons2, f'int() sees at most {max(ln)} characters', node=_N(g), file=g.file)
         col.floor('C08-partial', 'numeric conversions in parse actions', n, 1)
     guarded(col, 'C08-partial', 'conversions', conversions)
 
